@@ -103,6 +103,10 @@ def p10_accept_loop(ctx):
     starts = [e[1] for e in ok_e] if ok_e else nxt
     p3 = path_to(b, starts, lambda x: x == abb, blocked_edges=lambda e: e.kind in ("unwind", "ydrop") or (e.src == sbb and e.kind == "ret"))
     r.add(f, "every accepted connection reaches tokio::spawn before the next iteration", p3 is None, where(b, sbb), "" if p3 is None else "an accepted connection (and its permit) can be dropped without a handler task", describe_path(b, p3) if p3 else None)
+    # listen() returns Err only when accept() gave up: nothing that concerns a single connection may end the accept loop
+    aok, aerr, _sw = try_edges_awaited(b, cbb)
+    classes_wo = {c for c, d, rb in ret_classes(b, 0, lambda e: e.kind in ("unwind", "ydrop") or (e.src, e.dst) in aerr)}
+    r.add(f, "the accept loop ends with Err only when accept() itself gave up", bool(aerr) and "err" not in classes_wo, where(b, cbb), "" if "err" not in classes_wo else "an error on one accepted connection (e.g. peer_addr() of a socket that was already reset) returns from listen(): the whole server shuts down")
     # W3a: the task body awaits Handler::run on the captured handler; Handler::run has no other caller
     runs = [(x, bb, t) for x, bb, t in calls_in(shipped_bodies(prog), "net::server::Handler::run")]
     task = prog.bodies.get(so[2]) if so[0] == "agg" else None
